@@ -136,7 +136,37 @@ func (e *pfEngine) computeFlagFacts(fns []*ssa.Function) {
 					keep.lenGE[k] = v
 				}
 			}
-			e.flagFacts[w.typ+"."+w.field] = keep
+			// the invariant speaks about what hangs off the object's fields when the flag was set ($recv.Packet.Children):
+			// it survives only if such a field is never re-assigned on an object that may already carry the flag - i.e.
+			// only while the object is being built (a store into a fresh allocation of the same function)
+			roots := map[string]bool{}
+			for k := range keep.lenGE {
+				if parts := strings.Split(k, "."); len(parts) > 1 {
+					roots[parts[1]] = true
+				}
+			}
+			reassigned := false
+			for _, f := range e.c.shippedFuncs(G, TD) {
+				an.Instrs(f, func(in ssa.Instruction) {
+					st, ok := in.(*ssa.Store)
+					if !ok {
+						return
+					}
+					fa, ok := st.Addr.(*ssa.FieldAddr)
+					if !ok || !roots[an.FieldAddrName(fa)] {
+						return
+					}
+					if nt := an.StructOf(fa.X.Type()); nt == nil || nt.Obj().Name() != w.typ {
+						return
+					}
+					if al, fresh := an.Strip(fa.X).(*ssa.Alloc); !fresh || al.Parent() != f {
+						reassigned = true
+					}
+				})
+			}
+			if !reassigned {
+				e.flagFacts[w.typ+"."+w.field] = keep
+			}
 		}
 	}
 }
